@@ -215,9 +215,14 @@ func runCase(c *Case) ([]F, map[string]interface{}) {
 			fs = append(fs, F{"prepare-panic", firstLine(p) + " :: " + text})
 			continue
 		}
-		code := 0
+		// the verdict is compared, not the wording
+		code := gqlty.VerdictOK
 		if prep != nil {
-			code = gqlty.PrepareErrCode(prep.Error())
+			code = gqlty.VerdictOtherError
+			if _, ok := prep.(graphql.ClientError); ok {
+				code = gqlty.VerdictClientError
+			}
+			obs[fmt.Sprintf("prepare-error-text-class:%d", gqlty.PrepareErrCode(prep.Error()))] = true
 		}
 		if term, terr := gqlty.DocToCoq(doc); terr == nil && gqlty.CoqStringSafe(text) {
 			qterms = append(qterms, fmt.Sprintf("(%s, %d)", term, code))
@@ -236,7 +241,7 @@ func runCase(c *Case) ([]F, map[string]interface{}) {
 		switch {
 		case ill != "" && prep == nil:
 			fs = append(fs, F{"ill-formed-selection-accepted:" + ill, text})
-		case ill == "" && prep != nil && code != 45:
+		case ill == "" && prep != nil && !c.CrossArgs: // (with cross_args the arguments of a shared selection may not fit the second type)
 			fs = append(fs, F{"well-formed-selection-rejected", firstLine(prep.Error()) + " :: " + text})
 		}
 		if ill != "" {
@@ -258,7 +263,7 @@ func runCase(c *Case) ([]F, map[string]interface{}) {
 		clash := aliasClash(doc)
 		if xerr != nil {
 			// the legitimate execution errors: a generated resolver broke its own promise during this query
-			if why := g.Excused(xerr.Error()); why != "" {
+			if why := g.Excused(); why != "" {
 				obs[why] = true
 				continue
 			}
@@ -414,7 +419,7 @@ func main() {
 			}
 		}
 		for k := range res.Obs {
-			if strings.HasPrefix(k, "ill:") || k == "cross-type-spread" || k == "nonnullable-nil-rejected" || k == "enum-without-value-rejected" {
+			if strings.HasPrefix(k, "ill:") || k == "cross-type-spread" || k == "nonnullable-nil-rejected" || k == "enum-without-value-rejected" || strings.HasPrefix(k, "prepare-error-text-class:") {
 				run.Hist(k)
 			}
 		}
